@@ -22,6 +22,7 @@ HARNESSES = {
     "vhist1": ("vhist.cpp", ["VHIST_GROUP=1"]),
     "vhist2": ("vhist.cpp", ["VHIST_GROUP=2"]),
     "vhist3": ("vhist.cpp", ["VHIST_GROUP=3"]),
+    "dhist": ("dhist.cpp", []),
 }
 
 
@@ -129,6 +130,12 @@ def c11_jobs(tier):
     js = [job("vhist%d" % g, n, workers=3, tag=tag, plain_pct=10, step_cap=60000) for g in (0, 1, 2, 3)]
     js += [job("vhist%d" % g, scale(tier, 6000, 300000), workers=1, tag=tag, params={"sequential": 1}, step_cap=300000) for g in (0, 1, 2, 3)]
     return js
+
+
+def c12_jobs(tier):
+    tag = scale(tier, "quick", "")
+    return [job("dhist", scale(tier, 200000, 6000000), workers=13, tag=tag, plain_pct=15),
+            job("dhist", scale(tier, 20000, 600000), workers=3, tag=tag, params={"sequential": 1}, step_cap=400000)]
 
 
 NOT_YET = {}
@@ -326,5 +333,20 @@ PROPS = {
                 "one element through the iterator. Distinct: program + history.",
         "nontrivial_floor": 0.1,
         "assumptions": ["sequentially consistent interleavings", "documented iterator rules are generator preconditions"],
+    },
+    "C12": {
+        "jobs": c12_jobs,
+        "level_text": "Sampled exploration of owner/thief histories decided by an exact linearizability check against the deque specification "
+                      "(try_steal may additionally fail when it overlapped a successful removal), plus exactly-once hand-out and a final drain.",
+        "level_note": "Trusted: runtime, checker; the index-offset prefix is checked directly (push followed by pop/steal returns the item) "
+                      "rather than through the 64-operation history.",
+        "technique": "property-based testing: generated owner/thief programs + index offsets + schedules vs linearizability checker (deque spec) and conservation",
+        "rule": "case = container (growing or fixed, capacity 2/4/8) x index offset 0..5*capacity reached by push+pop or push+steal traffic "
+                "(sequential cases: up to 10^4) x fill level 0..capacity+1 x owner program (up to 12 try_push/try_pop) x 1-3 thieves (up to 8 "
+                "try_steal each) x generated schedule. Oracle: linearizability against the deque specification, no item handed out twice, "
+                "nothing invented, nothing lost (final drain). Non-trivial: the array grew in the concurrent part at an offset that is not "
+                "a multiple of the capacity, or a steal overlapped a pop. Distinct: program + history.",
+        "nontrivial_floor": 0.1,
+        "assumptions": ["sequentially consistent interleavings in this check (the weak tier is C03)", "exactly one owner thread"],
     },
 }
